@@ -115,7 +115,7 @@ def _tiny(nmax):
 
 def run(tier, seed):
     quick = tier == 'quick'
-    ntrees, size = (300, 12) if quick else (5000, 40)
+    ntrees, size = (300, 12) if quick else (2500, 40)     # per mode
     out = []
     for xml in (0, 1):
         c = Clause('html-tree-%s' % ('xml' if xml else 'html'), 'B',
